@@ -33,7 +33,7 @@ for d in sorted(os.listdir(os.path.join(VERIF, "seeded"))):
         for c in checks:
             t0 = time.time()
             p = subprocess.run([os.path.join(VERIF, "check"), c, "--tier", tier], stdout=subprocess.PIPE, stderr=subprocess.STDOUT, text=True, cwd=VERIF,
-                               env=dict(os.environ, VERIF_SEED=os.environ.get("VERIF_SEED", "1")))
+                               env=dict(os.environ, VERIF_SEED=os.environ.get("VERIF_SEED", "1"), VERIF_EVIDENCE_DIR=os.path.join(VERIF, "build", "seeded-evidence")))
             sigs = [l.split("signature:", 1)[1].strip() for l in p.stdout.splitlines() if "signature:" in l]
             res[c] = {"exit": p.returncode, "signatures": sigs[:6], "wall_s": round(time.time() - t0, 1)}
     finally:
